@@ -451,6 +451,74 @@ func runC01(r *Report) {
 				}
 			}
 		}
+		// full-read form: the body is read by io.ReadFull / ReadAtLeast(min=len) into a buffer whose
+		// length is the declared size, directly or in a same-package helper that receives the size
+		// (`readPooled(int(bodySize), ...)`): exactly the declared number of bytes is consumed.
+		if r.Count("R-C01-3") == 0 {
+			var szParam *ssa.Parameter
+			for _, p := range rb.Params {
+				if p.Name() == "bodySize" || (szParam == nil && wireDerived(p) != nil) {
+					szParam = p
+				}
+			}
+			type site struct {
+				fn   *ssa.Function
+				size ssa.Value // value in fn that must be the declared size
+			}
+			work := []site{{rb, szParam}}
+			seen := map[*ssa.Function]bool{rb: true}
+			for len(work) > 0 && szParam != nil {
+				w := work[0]
+				work = work[1:]
+				lossless := func(v ssa.Value) bool {
+					if pp, ok := w.size.(*ssa.Parameter); ok {
+						return losslessFrom(stripValue(v), pp) || losslessFrom(v, pp)
+					}
+					return false
+				}
+				for _, ci := range Calls(w.fn, false, "io:ReadFull", "io:ReadAtLeast") {
+					if ClassifyRead(ci).Shape != "full" {
+						continue
+					}
+					buf := stripValue(Arg(ci, 1))
+					var n ssa.Value
+					switch b := buf.(type) {
+					case *ssa.MakeSlice:
+						n = b.Len
+					case *ssa.Call:
+						if CalleeOf(b).Is("BufferManager.Allocate") {
+							n = Arg(b, 0)
+						}
+					}
+					r.Ob("R-C01-3", CallPos(ci), n != nil && lossless(n), "the body is read in full into a buffer whose length is the declared body size", "readPacketBody", "bound-is-declared-size")
+					good := true
+					if n != nil && buf.Referrers() != nil {
+						for _, ref := range *buf.Referrers() {
+							if sl, ok := ref.(*ssa.Slice); ok && sl.Low != nil {
+								good = false
+							}
+						}
+					}
+					r.Ob("R-C01-3", CallPos(ci), good, "the data handed on starts at the beginning of the buffer that was filled", "readPacketBody", "result-is-accumulated-prefix")
+				}
+				Instrs(w.fn, func(in ssa.Instruction) {
+					cc, isCall := in.(*ssa.Call)
+					if !isCall {
+						return
+					}
+					h := cc.Common().StaticCallee()
+					if h == nil || h.Pkg != rb.Pkg || len(h.Blocks) == 0 || seen[h] {
+						return
+					}
+					for i, a := range cc.Call.Args {
+						if lossless(a) && i < len(h.Params) {
+							seen[h] = true
+							work = append(work, site{h, h.Params[i]})
+						}
+					}
+				})
+			}
+		}
 		r.Floor("R-C01-3", 2, "body accumulate loop and result slice")
 	}
 
@@ -822,6 +890,48 @@ func checkPoolOwnership(r *Report, f *ssa.Function, alloc ssa.CallInstruction) {
 				}
 			}
 		}
+	}
+	// the buffer lent to a callback parameter (`consume(buffer)`) while this function releases it:
+	// no callback passed by a caller may keep the slice
+	if len(releases) > 0 && bad == "" {
+		Instrs(f, func(in ssa.Instruction) {
+			c, ok := in.(*ssa.Call)
+			if !ok || c.Common().IsInvoke() {
+				return
+			}
+			cb, isParam := c.Call.Value.(*ssa.Parameter)
+			if !isParam {
+				return
+			}
+			argIdx := -1
+			for i, a := range c.Call.Args {
+				if aliases(a, b, map[ssa.Value]bool{}) {
+					argIdx = i
+				}
+			}
+			pIdx := -1
+			for i, p := range f.Params {
+				if p == cb {
+					pIdx = i
+				}
+			}
+			if argIdx < 0 || pIdx < 0 {
+				return
+			}
+			for _, site := range staticCallSites(r.P, f) {
+				if pIdx >= len(site.Call.Args) {
+					continue
+				}
+				g := resolveClosure(site.Call.Args[pIdx], site.Parent(), 0)
+				if g == nil || argIdx >= len(g.Params) {
+					bad = "the buffer is lent to a callback that could not be resolved at " + r.P.Pos(site.Pos())
+					continue
+				}
+				if how := retains(g.Params[argIdx], 0, map[ssa.Value]bool{}); how != "" {
+					bad = "the buffer lent to the callback at " + r.P.Pos(site.Pos()) + " is " + how + " while " + f.Name() + " releases it"
+				}
+			}
+		})
 	}
 	r.Ob("R-C01-5", CallPos(alloc), bad == "", map[bool]string{true: "pooled buffer is either copied out before Release or handed over without Release", false: bad + ": the next packet read overwrites the bytes the caller still holds"}[bad == ""], fn, "pool-buffer-ownership")
 }
